@@ -2438,6 +2438,17 @@ _dbus_connection_block_pending_call (DBusPendingCall *pending)
       _dbus_verbose ("dbus_connection_send_with_reply_and_block(): will block for reply serial %u\n", client_serial);
     }
 
+  /* Another thread may have completed the call (by dispatching its
+   * reply) since the unlocked check above, for instance while flushing
+   * had dropped the lock. It must not be completed a second time with
+   * whatever else in the queue carries its serial. */
+  if (_dbus_pending_call_get_completed_unlocked (pending))
+    {
+      CONNECTION_UNLOCK (connection);
+      dbus_pending_call_unref (pending);
+      return;
+    }
+
   /* check to see if we already got the data off the socket */
   /* from another blocked pending call */
   if (check_for_reply_and_update_dispatch_unlocked (connection, pending))
